@@ -1,4 +1,5 @@
 (* C03/Proofs3.v — termination of Shutdown: a ranking function and a progress lemma. *)
+From Coq Require Import Permutation.
 From Verif Require Import Common.Base C03.Model C03.Proofs C03.Proofs2.
 
 Definition wst (st : send_st) : nat := match st with SReady => 5 | SInCall => 4 | SBackoff => 3 | SDone _ => 2 end.
@@ -65,7 +66,7 @@ Proof.
   { intros B. destruct (i_nobatch _ _ I B) as (A1 & _ & A3 & A4 & _ & A6). auto. }
   destruct (pc s) eqn:P; try discriminate N; try congruence; cbn in Hq, Hb.
   - fire LCloseStop.
-  - fire LQueueStop.
+  - fire (LQueueStop false).
   - (* PQStopped *)
     destruct (idle s) as [|n] eqn:Ei.
     + destruct (holding s) as [|i h] eqn:Eh.
@@ -145,8 +146,50 @@ Lemma refuted_l : exists c ls s cyc s',
   cyc <> [] /\ run c s cyc = Some s' /\ ctl s' = ctl s /\ mu s' = mu s /\ length (begun s') = S (length (begun s)).
 Proof.
   exists (mkCfg false false false true 1 0),
-         [LOffer 1; LTake; LBegin 0; LEnd 0 OTransient; LShutCall; LCloseStop; LQueueStop].
+         [LOffer 1; LTake; LBegin 0; LEnd 0 OTransient; LShutCall; LCloseStop; LQueueStop false].
   eexists. exists [LRetryTimer 0; LBegin 0; LEnd 0 OTransient]. eexists.
   split; [vm_compute; reflexivity|]. split; [reflexivity|]. split; [reflexivity|]. split; [discriminate|].
   split; [discriminate|]. split; [vm_compute; reflexivity|]. repeat split.
+Qed.
+
+(* ---- split requests: the accumulated verdict of the parts ------------------------------------------ *)
+Lemma combine_shutdown rs : In RShutdown rs <-> combine rs = RShutdown.
+Proof.
+  induction rs as [|r t IH]; simpl.
+  - split; [tauto|discriminate].
+  - destruct r, (combine t) eqn:E; split; intros H; try reflexivity; try discriminate;
+      try (left; reflexivity); try (right; apply IH; reflexivity);
+      try (destruct H as [H|H]; [discriminate|apply IH in H; discriminate]).
+Qed.
+
+Lemma combine_success rs : combine rs = RSuccess <-> forall r, In r rs -> r = RSuccess.
+Proof.
+  induction rs as [|r t IH]; simpl.
+  - split; [intros _ r []|reflexivity].
+  - destruct r, (combine t) eqn:E; split; intros H; try discriminate; try reflexivity.
+    all: try (intros r [<-|Hr]; [reflexivity|apply IH; [reflexivity|assumption]]).
+    all: try (specialize (H RFail (or_introl eq_refl)); discriminate).
+    all: try (specialize (H RShutdown (or_introl eq_refl)); discriminate).
+    all: try (assert (X : RFail = RSuccess) by (apply IH; intros r Hr; apply H; right; assumption); discriminate).
+    all: try (assert (X : RShutdown = RSuccess) by (apply IH; intros r Hr; apply H; right; assumption); discriminate).
+Qed.
+
+Lemma combine_perm rs rs' : Permutation rs rs' -> combine rs = combine rs'.
+Proof.
+  induction 1; simpl; try congruence.
+  - rewrite IHPermutation. reflexivity.
+  - destruct x, y, (combine l); reflexivity.
+Qed.
+
+Lemma kept_iff_l rs : In RShutdown rs <-> kept_after rs = true.
+Proof.
+  unfold kept_after. rewrite combine_shutdown. destruct (combine rs); simpl; split; congruence.
+Qed.
+
+Lemma queue_stop_error_l c s s1 s2 :
+  step c s (LQueueStop true) = Some s1 -> step c s (LQueueStop false) = Some s2 ->
+  s2 = set_shuterr false s1 /\ shuterr s1 = true /\ pc s1 = PQStopped /\ qstop s1 = true.
+Proof.
+  unfold step. destruct (pc s); try discriminate. destruct (c_persist c); intros H1 H2;
+    injection H1 as <-; injection H2 as <-; repeat split.
 Qed.
